@@ -229,7 +229,8 @@ void cli_parser(const MainOptions& options, const std::vector<std::string>& args
         catch (bloc::RuntimeError& re)
         {
           set_color(fgRED); PRINTF("Error: %s", re.what()); reset_color();
-          ctx.purgeWorkingMemory();
+          /* close the loops left open by the error, purge temporaries */
+          ctx.onRuntimeError();
           break;
         }
       }
